@@ -835,3 +835,103 @@ def scn_from_json(d):
         if s["maxs"] is None:
             s["maxs"] = INF
     return d
+
+
+# =============================================================================================
+# targeted family: finite-rate EVSE whose head-room under a binding constraint is `delta` A below a level
+# =============================================================================================
+EDGE_DELTAS = [1e-3, 5e-3, 9e-3, 2e-2, 2e-3, 7e-3, 1.5e-2, 1e-4, 3e-2, -1e-3]
+EDGE_LEVELS = [[0.0] + [float(x) for x in range(6, 33)], [0.0, 8.0, 16.0, 24.0, 32.0],
+               [0.0, 6.0, 12.0, 18.0, 24.0, 30.0], [0.0, 6.5, 13.0, 19.5, 26.0], [0.0, 16.0, 32.0]]
+
+
+def _row_norm(row, cosv, sinv, x):
+    re = sum(row[i] * cosv[i] * x[i] for i in range(len(x)))
+    im = sum(row[i] * sinv[i] * x[i] for i in range(len(x)))
+    return math.hypot(re, im)
+
+
+def gen_level_edge(rng, tier, sort=None, unint=None, algo="greedy", deltas=None):
+    """Sessions are served in priority order on a constraint that is monotone in every station (single phase,
+    or a delta line row +1/-1 on the 30/150 degree groups); the limit is placed so that, with the higher-priority
+    sessions at the pilots they obtain, the head-room of one finite-rate session is `delta` A below one of its
+    levels, delta in EDGE_DELTAS (e.g. a 39.995 A breaker with one EV at 32 A: 7.995 A left for levels 6,7,8,...)."""
+    for _attempt in range(50):
+        N = rng.choice([2, 2, 3, 3, 4])
+        style = rng.choice(["single", "single", "delta", "delta", "mixed-phase"])
+        if style == "single":
+            phases = [0.0] * N
+            row = [1.0] * N
+        elif style == "delta":
+            phases = [rng.choice([30.0, 150.0]) for _ in range(N)]
+            if len(set(phases)) == 1:
+                phases[0] = 180.0 - phases[0]
+            row = [1.0 if p == 30.0 else -1.0 for p in phases]
+        else:
+            phases = [rng.choice([0.0, 0.0, 60.0]) for _ in range(N)]       # less than 90 degrees apart: still monotone
+            row = [rng.choice([1.0, 1.0, 0.5]) for _ in range(N)]
+        volt = [float(rng.choice([208, 240, 120])) for _ in range(N)]
+        allow, cont, maxp, minp, etype = [], [], [], [], []
+        for i in range(N):
+            if rng.random() < 0.8:
+                lv = list(rng.choice(EDGE_LEVELS))
+                allow.append(lv); cont.append(False); maxp.append(max(lv)); minp.append(min(a for a in lv if a > 0)); etype.append("F")
+            else:
+                mx = float(rng.choice([32, 16, 40]))
+                allow.append([0.0, mx]); cont.append(True); maxp.append(mx); minp.append(0.0); etype.append("C0")
+        A, L = [row], [1000.0]
+        for _ in range(rng.choice([0, 0, 1, 2])):          # additional rows that never bind
+            A.append([rng.choice([0.0, 1.0, -1.0, 0.25]) for _ in range(N)])
+            L.append(float(rng.choice([400, 1000])))
+        infra = dict(N=N, A=A, L=L, phases=phases, volt=volt, maxp=maxp, minp=minp, allow=allow, cont=cont, etype=etype)
+        period = float(rng.choice([1, 5, 15]))
+        now = rng.randint(5, 60)
+        k = rng.choice([N, N, N - 1]) if N > 2 else N
+        stations = rng.sample(range(N), k)
+        arrs = rng.sample(range(max(0, now - 30), now + 1), k)
+        sess = []
+        for n_, st in enumerate(stations):
+            dep = now + rng.randint(2, 12)
+            sess.append(dict(st=st, sid=100 + n_ * 7 + rng.randint(0, 5), req=float(rng.choice([20, 30, 45.5])),
+                             deliv=float(rng.choice([0.0, 1.25, 3.0])), arr=arrs[n_], dep=dep,
+                             edep=dep + rng.randint(-1, 6) if rng.random() < 0.5 else dep, mins=0, maxs=INF))
+        scn = dict(infra=infra, period=period, now=now, sessions=sess, algo=algo,
+                   sort=sort or rng.choice(SORTS), est=None,
+                   unint=(rng.random() < 0.3) if unint is None else unint, inc=rng.choice([0.5, 1.0]), edge=None)
+        tw = Twin(scn)
+        try:
+            q = tw.sort(tw.preprocess())
+        except TwinError:
+            continue
+        cand = [j for j, s in enumerate(q) if not cont[s["st"]] and row[s["st"]] != 0]
+        if not cand:
+            continue
+        j = rng.choice(cand)
+        x = [0.0] * N
+        for s in q:
+            x[s["st"]] = max(0.0, s["mins"][0].fl)
+        for s in q[:j]:                                   # higher-priority sessions obtain their maximum
+            i = s["st"]
+            ub = min(s["maxs"][0].fl, tw.rap(s).fl)
+            x[i] = ub if cont[i] else max([a for a in allow[i] if x[i] <= a <= ub] or [x[i]])
+        s = q[j]
+        i = s["st"]
+        ub = min(s["maxs"][0].fl, tw.rap(s).fl)
+        levels = [a for a in allow[i] if x[i] < a <= ub]
+        if not levels:
+            continue
+        target = rng.choice(levels)
+        delta = rng.choice(deltas or EDGE_DELTAS)
+        cosv = [math.cos(math.radians(p)) for p in phases]
+        sinv = [math.sin(math.radians(p)) for p in phases]
+        x[i] = target - delta
+        T = _row_norm(row, cosv, sinv, x)
+        lim = T - 1e-5 if T - 1e-5 <= 100 else T / (1 + 1e-7)
+        if lim <= 0:
+            continue
+        if rng.random() < 0.3:
+            lim = round(lim, 4)                          # e.g. 39.995
+        infra["L"][0] = float(lim)
+        scn["edge"] = dict(station=i, level=target, delta=delta, style=style)
+        return scn
+    return gen_scenario(rng, tier, algo=algo, sort=sort, unint=unint, est=False, user_bounds=False)
